@@ -35,8 +35,25 @@ def verify(prop, m):
     rc, out = sh(f"git checkout -q --detach {head}", cwd=wt)
     assert rc == 0, out
     res = {"property": prop, "id": f"{prop}-{m}", "verified_at_repo_commit": head[:7]}
-    shutil.copy(demo, f"{wt}/a2lfile/tests/seed_demo_{m}.rs")
-    rc, out = sh(f"cargo test --offline -p a2lfile --test seed_demo_{m}", cwd=wt)
+    demodir = f"{base}/out/demo_{m}"
+    if os.path.exists(f"{demodir}/run.sh"):
+        # stand-alone demonstration script (builds its own copy of the crate from the worktree)
+        def run_demo():
+            return sh(f"sh {demodir}/run.sh {wt}", cwd=demodir)
+        democmd = "sh demo/run.sh <worktree>"
+    elif os.path.exists(f"{demodir}/Cargo.toml"):
+        # stand-alone cargo project with path dependencies on the worktree (needed for the in-tree macro crate)
+        def run_demo():
+            return sh("cargo test --offline", cwd=demodir)
+        democmd = "cd demo && cargo test --offline (path deps on the worktree)"
+    else:
+        def run_demo():
+            shutil.copy(demo, f"{wt}/a2lfile/tests/seed_demo_{m}.rs")
+            r = sh(f"cargo test --offline -p a2lfile --test seed_demo_{m}", cwd=wt)
+            os.remove(f"{wt}/a2lfile/tests/seed_demo_{m}.rs")
+            return r
+        democmd = "cargo test --offline -p a2lfile --test seed_demo"
+    rc, out = run_demo()
     res["demo_without_change"] = "pass" if rc == 0 else "FAIL"
     rc, out = sh(f"git apply {diff}", cwd=wt)
     if rc != 0:
@@ -45,9 +62,9 @@ def verify(prop, m):
         sh("git checkout -q -- . && git clean -fdq a2lfile/tests", cwd=wt)
         return res
     res["applies"] = True
-    rc, out = sh(f"cargo test --offline -p a2lfile --test seed_demo_{m}", cwd=wt)
-    res["demo_with_change"] = "fail" if rc != 0 else "PASSES"
-    os.remove(f"{wt}/a2lfile/tests/seed_demo_{m}.rs")
+    rc, out = run_demo()
+    res["demo_with_change"] = "fail" if (rc != 0 and "test result: FAILED" in out) else ("PASSES" if rc == 0 else "BUILD-ERROR")
+    res["demo_failures"] = [l.strip() for l in out.splitlines() if l.startswith("test ") and l.rstrip().endswith("FAILED")][:8]
     rc, out = sh("cargo test --workspace --no-fail-fast --offline", cwd=wt)
     res["suite_with_change"] = "green" if (rc == 0 and suite_ok(out)) else "RED"
     sh("git checkout -q -- . && git clean -fdq a2lfile/tests", cwd=wt)
@@ -59,12 +76,15 @@ def verify(prop, m):
         os.makedirs(d, exist_ok=True)
         shutil.copy(diff, f"{d}/patch.diff")
         shutil.copy(demo, f"{d}/seed_demo.rs")
+        if os.path.isdir(demodir):
+            shutil.rmtree(f"{d}/demo", ignore_errors=True)
+            shutil.copytree(demodir, f"{d}/demo", ignore=shutil.ignore_patterns("target", "work"))
         notes = f"{base}/out/notes.md"
         if os.path.exists(notes):
             shutil.copy(notes, f"{d}/notes_from_author.md")
         meta = {"id": f"{prop}-{m}", "breaks_property": prop, "needs_to_manifest": "see notes_from_author.md",
-                "confirmed": {"commands": ["cargo test --offline -p a2lfile --test seed_demo (without change: pass)",
-                                           "git apply patch.diff; cargo test --offline -p a2lfile --test seed_demo (fail)",
+                "confirmed": {"commands": [democmd + " (without change: pass)",
+                                           "git apply patch.diff; " + democmd + " (fail)",
                                            "cargo test --workspace --no-fail-fast --offline (green with change)"],
                               "repo_commit": head[:7], "result": res},
                 "check_runs": []}
